@@ -153,6 +153,48 @@ pub fn corr_merge(ctx: &mut Ctx) {
             }
         }
     }
+    // union accumulators: a sketcher that only ever receives merges (never sketches an item itself), 2..4 merges
+    // from sources of very different sizes (the later source may be the smaller one), optional reinit in between
+    for c in 0..ctx.n(40, 400) {
+        let mut rng = ctx.rng.fork();
+        let p = params_pool(&mut rng, c);
+        let nsrc = 2 + rng.below(3) as usize;
+        ctx.begin_case(&format!("ssk merge-only accumulator b={} m={} sources={}", p.0, p.1, nsrc));
+        ctx.mark_nontrivial();
+        ctx.count("history=merge-only accumulator");
+        let mut acc = new16(p);
+        ctx.op(&newop("acc", p, u16::MAX as u64));
+        let mut union: std::collections::BTreeSet<u64> = Default::default();
+        let mut last_est = 0.0f64;
+        for si in 0..nsrc {
+            let n = match (c as usize + si) % 3 { 0 => 1 + rng.below(5) as usize, 1 => 50 + rng.below(200) as usize, _ => 2000 };
+            let items = gen_stream(&mut rng, n);
+            let mut src = new16(p);
+            ctx.op(&newop("src", p, u16::MAX as u64));
+            for x in &items { src.sketch(x).unwrap(); ctx.op(&format!("ssk sk src {}", hx(hash_with::<FnvHasher, u64>(x)))); }
+            let r = acc.merge(&src);
+            ctx.line("ssk merge acc src", if r.is_ok() { "ok" } else { "ERR" });
+            ctx.line("ssk dump acc", &dump16(&acc));
+            union.extend(items.iter().cloned());
+            let mut fresh = new16(p);
+            for x in &union { fresh.sketch(x).unwrap(); }
+            if fresh.get_signature() != acc.get_signature() {
+                ctx.oracle_failure(serde_json::json!({"kind":"impl_violates_property","what":"merge-only accumulator differs from the sketch of the union of its sources","params":format!("{:?}",p),"merge_number":si+1,"union_size":union.len()}));
+            }
+            let est = acc.get_cardinal_stats().0;
+            if est < last_est {
+                ctx.oracle_failure(serde_json::json!({"kind":"impl_violates_property","what":"cardinality estimate decreased when another sketch was merged in","params":format!("{:?}",p),"before":last_est,"after":est,"merge_number":si+1}));
+            }
+            last_est = est;
+            if si + 1 < nsrc && rng.below(4) == 0 {
+                acc.reinit();
+                ctx.op("ssk reinit acc");
+                ctx.line("ssk dump acc", &dump16(&acc));
+                union.clear();
+                last_est = 0.0;
+            }
+        }
+    }
     // parameter mismatches: refused, receiver unchanged
     let base = (1.2f64, 16u64, 20.0f64, 65534u64);
     let nextf = |x: f64, k: u64| f64::from_bits(x.to_bits() + k);
